@@ -27,6 +27,7 @@ const PRIMS: [(&str, usize, usize); 15] = [
 #[derive(Clone, Debug)]
 pub struct Case {
     pub structs: Vec<Vec<F>>, // struct k may use structs < k; the last one is the struct under test
+    pub discs: (i32, i32), // discriminants of `En::A`, `En::B`
     pub out: bool,        // #[diplomat::out] structs (may hold Box<Opaque>) or input structs (may hold owned slices)
 }
 
@@ -59,7 +60,8 @@ impl Case {
     }
     /// out-structs: they may hold every field kind (incl. owned opaques)
     pub fn rust(&self) -> String {
-        let mut s = String::from("#[diplomat::bridge]\nmod ffi {\n    #[diplomat::opaque]\n    pub struct Op;\n    pub enum En { A, B }\n");
+        let mut s = String::from("#[diplomat::bridge]\nmod ffi {\n    #[diplomat::opaque]\n    pub struct Op;\n");
+        s += &(if self.discs == (0, 1) { "    pub enum En { A, B }\n".to_string() } else { format!("    pub enum En {{ A = {}, B = {} }}\n", self.discs.0, self.discs.1) });
         for (k, fs) in self.structs.iter().enumerate() {
             s += &format!("    {}pub struct S{k} {{ {} }}\n", if self.out { "#[diplomat::out]\n    " } else { "" }, fs.iter().enumerate().map(|(i, f)| format!("pub f{i}: {}", self.fty(f))).collect::<Vec<_>>().join(", "));
         }
@@ -113,7 +115,8 @@ pub fn gen_case(rng: &mut Rng) -> Case {
         let nf = 1 + rng.below(if k + 1 == ns { 7 } else { 3 });
         structs.push((0..nf).map(|_| gen_field(rng, k, 1, out)).collect());
     }
-    Case { structs, out }
+    let discs = *rng.pick(&[(0, 1), (0, 1), (-2, 1), (-40, 35), (5, 6), (2147483646, 2147483647)]);
+    Case { structs, discs, out }
 }
 
 fn real_layout(c: &Case) -> Result<(String, Vec<usize>, usize, usize), String> {
@@ -187,12 +190,12 @@ pub fn main(args: &[String]) {
     // boundary of the legacy ABI), an option next to it, in every position
     let mut cases: Vec<Case> = vec![];
     // structs that are a single scalar (the wasm C ABI treats them as that scalar)
-    cases.push(Case { structs: vec![vec![F::Enum]], out: false });
-    cases.push(Case { structs: vec![vec![F::BoxOpaque]], out: true });
-    cases.push(Case { structs: vec![vec![F::Prim("bool", 1, 1)]], out: false });
-    cases.push(Case { structs: vec![vec![F::Prim("f64", 8, 8)]], out: false });
-    cases.push(Case { structs: vec![vec![F::Prim("u8", 1, 1)], vec![F::Struct(0)]], out: false });
-    for _ in 0..3 { cases.push(Case { structs: vec![vec![F::Prim("u32", 4, 4)]], out: false }); }
+    cases.push(Case { structs: vec![vec![F::Enum]], discs: (0, 1), out: false });
+    cases.push(Case { structs: vec![vec![F::BoxOpaque]], discs: (0, 1), out: true });
+    cases.push(Case { structs: vec![vec![F::Prim("bool", 1, 1)]], discs: (0, 1), out: false });
+    cases.push(Case { structs: vec![vec![F::Prim("f64", 8, 8)]], discs: (0, 1), out: false });
+    cases.push(Case { structs: vec![vec![F::Prim("u8", 1, 1)], vec![F::Struct(0)]], discs: (0, 1), out: false });
+    for _ in 0..3 { cases.push(Case { structs: vec![vec![F::Prim("u32", 4, 4)]], discs: (0, 1), out: false }); }
     for inner in [[("u8", 1, 1), ("u32", 4, 4)], [("u16", 2, 2), ("u16", 2, 2)], [("u8", 1, 1), ("u64", 8, 8)], [("i32", 4, 4), ("u8", 1, 1)]] {
         for k in 0..4usize {
             for pos in 0..=k {
@@ -200,7 +203,7 @@ pub fn main(args: &[String]) {
                     let mut last: Vec<F> = (0..k).map(|j| { let p = PRIMS[(j * 5 + k) % PRIMS.len()]; F::Prim(p.0, p.1, p.2) }).collect();
                     last.insert(pos, F::Struct(0));
                     if with_opt { last.push(F::Opt(Box::new(F::Prim("u16", 2, 2)))); }
-                    cases.push(Case { structs: vec![inner.iter().map(|p| F::Prim(p.0, p.1, p.2)).collect(), last], out: false });
+                    cases.push(Case { structs: vec![inner.iter().map(|p| F::Prim(p.0, p.1, p.2)).collect(), last], discs: (0, 1), out: false });
                 }
             }
         }
